@@ -202,3 +202,17 @@ H("C10", "html/layout", "VxH_C10_width", mode="real", reach=["resolved"], bounds
 H("C10", "html/layout", "VxH_C10_collapse", mode="real", reach=["collapsed"], bounds="1..4 (thorough 5) fully symbolic adjoining margins")
 H("C10", "html/layout", "VxH_C10_percent", mode="real", reach=["resolved"], bounds="one of margin-left/top, padding-right/bottom, width, min-width as px / % / auto with symbolic magnitude; symbolic containing block; 3 box-sizing values with symbolic left padding and border")
 H("C10", "html/layout", "VxH_C10_stack", mode="real", reach=["laid-out"], bounds="<section><article/></section><aside/> laid out by the real pipeline: parent padding-top/bottom 0 or in [1,50], child height in [1,100], margins in [-20,20] (symbolic)", quick={"maxsteps": 50000000, "time": "400s"})
+
+# ---- C12 pages ----
+ASSUMPTIONS["C12"] = [
+    "real mode; text-free documents laid out by the real pipeline (tree.NewHTML, BuildFormattingStructure, layoutDocument) with hand-built sheets carrying symbolic lengths; nil font configuration",
+    "margin boxes, page counters, named pages through the `page` property, orphans/widows on real text lines and re-pagination are outside the claim",
+]
+CLAIMS["C12"] = {
+    "text": "For three blocks of symbolic heights on 100px pages and every combination of break-after / break-before values in {auto, page, left, right, avoid} the solver shows each block lands on the page and position that CSS fragmentation prescribes (forced breaks, blank page for the requested side, greedy filling, no overflow past the page bottom); page box geometry and @page selector matching (C03 page harness) are shown for symbolic sizes.",
+    "design_ref": "DESIGN.md section 4 C12",
+    "note": "Trusted: symgo, z3 nlsat. Bounded document shape.",
+}
+H("C12", "html/layout", "VxH_C12_breaks", mode="real", reach=["laid-out", "blank-page-inserted"], bounds="3 sibling blocks with heights in [10,90] on 100x100 pages without margins; break-after of the first and break-before of the second in {auto,page,left,right,avoid}", quick={"maxsteps": 50000000, "time": "500s", "shards": 4})
+H("C12", "html/layout", "VxH_C12_pagebox", mode="real", reach=["laid-out"], bounds="@page size W x H in [100,1000]^2, margins auto or in [0,20], width auto or in [10,50], padding in [0,10] (symbolic)", quick={"maxsteps": 50000000})
+H("C12", "html/tree", "VxH_C03_page", reach=["nth-match", "nth-no-match"], bounds="@page selector matching, see C03")
